@@ -22,6 +22,8 @@ def gen(rng, spec):
     case = search.gen_case(rng, nbest=rng.choice((1, 2, 2, 3, 5, 10, 50)), max_n=5, sparse=True, many_cats=rng.random() < 0.12,
                            family=rng.choice(('uniform', 'ties', 'ties', 'deceptive', 'softmax', 'uniform64')))
     case['config']['pruning_size'] = 50
+    if rng.random() < 0.08:
+        search.extreme_rows(rng, case)
     return case
 
 
